@@ -26,7 +26,7 @@ import (
 )
 
 type params struct {
-	Kind string `json:"kind"` // api | raw | fixed
+	Kind string `json:"kind"`        // api | raw | fixed
 	G    int    `json:"g,omitempty"` // > 0: this is goroutine G of a batch that runs four at once
 	Seed int64  `json:"seed"`
 	Idx  int    `json:"idx"`
